@@ -92,6 +92,16 @@ fn pool() -> Vec<Val> {
         // written with five hex digits: U+1F600 vs U+1F60 followed by "0"
         Val::Obj(vec![("k".into(), s("\u{1f600}"))]),
         Val::Obj(vec![("k".into(), s("\u{1f60}0"))]),
+        // objects whose member names run into each other when they are joined with a
+        // separator that a name may contain itself
+        Val::Obj(vec![("a\nb".into(), Val::Int(1)), ("c".into(), Val::Int(2))]),
+        Val::Obj(vec![("a".into(), Val::Int(1)), ("b\nc".into(), Val::Int(2))]),
+        Val::Obj(vec![("a,b".into(), Val::Int(1)), ("c".into(), Val::Int(2))]),
+        Val::Obj(vec![("a".into(), Val::Int(1)), ("b,c".into(), Val::Int(2))]),
+        Val::Obj(vec![("a\u{0}b".into(), Val::Int(1)), ("c".into(), Val::Int(2))]),
+        Val::Obj(vec![("a".into(), Val::Int(1)), ("b\u{0}c".into(), Val::Int(2))]),
+        Val::Obj(vec![("a\tb".into(), Val::Int(1)), ("c".into(), Val::Int(2))]),
+        Val::Obj(vec![("a".into(), Val::Int(1)), ("b\tc".into(), Val::Int(2))]),
         // neighbouring doubles: distinct values that an approximate comparison would merge
         Val::Dec(3, 1),
         Val::Dec(30_000_000_000_000_004, 17),
@@ -135,7 +145,7 @@ impl Property for C10 {
         "exploration"
     }
     fn rule(&self) -> &'static str {
-        "A scenario = a base list of records that are pairwise distinct by construction on the compared part (whole records carrying a unique id, or --select .g [--select .h] with the selected members drawn from a pool of 76 pairwise distinct abstract values (incl. values that differ only in where a bracket sits, and neighbouring doubles) or absent) and an at-least-once transport applied by the harness: every record may be redelivered later any number of times, each time in a fresh spelling that denotes the same value (whitespace, escape spelling, numerically identical number spellings for |n| < 2^53 or non-integral decimals; no -0, member order never permuted), while unselected fields may change; several hasher seeds per scenario through hook H1. Variants: a lossy --filter upstream, --skip/--take/--sort-by downstream, both selections under one title, rows made distinct by &index, the whole stream redelivered as a file argument named 2..3 times (hook H2), an aborted --unique run in the same process before the scenario. Oracle: stdout(--unique, faulted stream) = stdout(no --unique, the sub-stream of first deliveries with the same spellings) (exactly-once); the pairs [x, y] built from two deliveries go through --select (= #0 #1): true exactly for harness-known redeliveries (eq-agrees); identical stdout under every hasher seed (seed-free). evaluations = jawk executions; non-trivial = at least one redelivery was injected; distinct = distinct abstract traces. Round 7: one scenario in eight is a long history of 34..46 mostly distinct records whose redeliveries follow the first delivery closely; one in eight delivers the stream in 2..3 parts, each a file argument or the only file of a directory argument (hook H2)."
+        "A scenario = a base list of records that are pairwise distinct by construction on the compared part (whole records carrying a unique id, or --select .g [--select .h] with the selected members drawn from a pool of 84 pairwise distinct abstract values (incl. values that differ only in where a bracket sits, and neighbouring doubles) or absent) and an at-least-once transport applied by the harness: every record may be redelivered later any number of times, each time in a fresh spelling that denotes the same value (whitespace, escape spelling, numerically identical number spellings for |n| < 2^53 or non-integral decimals; no -0, member order never permuted), while unselected fields may change; several hasher seeds per scenario through hook H1. Variants: a lossy --filter upstream, --skip/--take/--sort-by/--group-by/--merge downstream, both selections under one title, rows made distinct by &index, the whole stream redelivered as a file argument named 2..3 times (hook H2), an aborted --unique run in the same process before the scenario. Oracle: stdout(--unique, faulted stream) = stdout(no --unique, the sub-stream of first deliveries with the same spellings) (exactly-once); the pairs [x, y] built from two deliveries go through --select (= #0 #1): true exactly for harness-known redeliveries (eq-agrees); identical stdout under every hasher seed (seed-free). evaluations = jawk executions; non-trivial = at least one redelivery was injected; distinct = distinct abstract traces. Round 7: one scenario in eight is a long history of 34..46 mostly distinct records whose redeliveries follow the first delivery closely; one in eight delivers the stream in 2..3 parts, each a file argument or the only file of a directory argument (hook H2)."
     }
     fn assumptions(&self) -> Vec<String> {
         vec![
@@ -270,6 +280,11 @@ impl Property for C10 {
         if rng.chance(1, 6) {
             // a sorter downstream, on a key that is coarser than the row
             case.opts.push(vec![format!("--sort-by={}", rng.pick(&[".h", ".g", ".keep", ".id", "(size .)", "\"k\""]))]);
+        }
+        if rng.chance(1, 8) && !has_opt(&case.opts, "--output-style") && !has_opt(&case.opts, "--sort-by") {
+            // a collecting stage downstream, keyed by something that is not part of the row
+            // (or not keyed at all): it sees the first occurrences, all of them, once
+            case.opts.push(vec![(*rng.pick(&["--group-by=(stringify .noise)", "--group-by=(stringify .keep)", "--group-by=(stringify .id)", "--merge", "--group-by", "--group-by=(stringify (size .))"])).to_string()]);
         }
         // the upstream redelivers a whole file: the stream arrives as a file argument that
         // is named 2..3 times on the command line (hook H2)
@@ -669,6 +684,33 @@ fn gen_computed(rng: &mut Rng, tier: Tier) -> Case {
         case.hash_seeds = (0..2).map(|_| rng.next_u64() >> 1).collect();
         case.delivery = gen_delivery(rng, case.stream().len());
         case.set("bigs", 1);
+        return case;
+    }
+    // one scenario in six: the rows are values of the pool themselves (look-alikes sit next
+    // to each other there), bare or as the elements of arrays that are split
+    if rng.chance(1, 6) {
+        let p = pool();
+        case.pieces.clear();
+        let m = rng.range(3, 10);
+        let at = rng.below(p.len());
+        let near = |rng: &mut Rng| p[(at + rng.below(4)) % p.len()].clone();
+        let split = rng.chance(1, 3);
+        for i in 0..m {
+            let v = if split { Val::Arr((0..rng.range(1, 3)).map(|_| near(rng)).collect()) } else { near(rng) };
+            case.pieces.push(Piece::rec(spell(&v, rng, 1), i as u32));
+            case.pieces.push(Piece::gap(vec![b'\n']));
+        }
+        if split {
+            case.opts.push(vec!["--split-by=.".into()]);
+        }
+        if rng.chance(1, 3) {
+            case.opts.push(vec!["--select".into(), ".=a".into()]);
+        }
+        case.opts.push(vec!["--style=consise".into()]);
+        case.opts.push(vec!["--utf8-strings".into()]);
+        case.hash_seeds = (0..2).map(|_| rng.next_u64() >> 1).collect();
+        case.delivery = gen_delivery(rng, case.stream().len());
+        case.set("bare", 1);
         return case;
     }
     let split = rng.chance(1, 4);
